@@ -305,6 +305,16 @@ def wl_sdmx(p):
     phase()
     gen.get_vxc_(vmat, vgrid)
     out["vmat"] = vmat
+    # the next grid block on the same generator (its Python-side buffers survive the call),
+    # of another length, possibly under another thread-count setting
+    phase()
+    n2 = max(1, int(p["ngrids"] * (0.6 if p["dseed"] % 2 else 1.4)))
+    coords2 = _order_points(nprng.normal(size=(n2, 3)) * p.get("spread", 1.5), p.get("order"), nprng)
+    feat2 = gen.get_features(dms, mol, coords2, cutoff=p.get("cutoff"))
+    out["feat.2"] = feat2
+    vmat2 = np.zeros(dms.shape)
+    gen.get_vxc_(vmat2, nprng.normal(size=feat2.shape))
+    out["vmat.2"] = vmat2
     return out
 
 
